@@ -13,6 +13,7 @@ times before calling it a violation; write /verif/evidence/<ID>.json; print
 import argparse, hashlib, json, os, shutil, subprocess, sys, time, glob, signal
 
 VERIF = os.path.dirname(os.path.abspath(__file__))
+EVID = os.environ.get("VERIF_EVIDENCE_DIR", os.path.join(VERIF, "evidence"))   # mutant self-tests write elsewhere
 sys.path.insert(0, VERIF)
 import props_config  # per-property table
 
@@ -117,7 +118,7 @@ class Runner:
     def confirm_and_record(self, data, kind, sig, origin):
         """three replays; all must fail the same way"""
         h = hashlib.sha1(data).hexdigest()[:12]
-        d = os.path.join(VERIF, "evidence", "replays"); os.makedirs(d, exist_ok=True)
+        d = os.path.join(EVID, "replays"); os.makedirs(d, exist_ok=True)
         path = os.path.join(d, f"{self.pid}-{h}.case"); open(path, "wb").write(data)
         res = [self.replay(path, budget=30) for _ in range(3)]
         if not all(r[0] == kind for r in res):
@@ -169,7 +170,7 @@ class Runner:
             wd = os.path.join(self.work, f"s{i}" + (f"r{attempt}" if attempt else "")); os.makedirs(wd)
             env = dict(self.env); env["RC_PARAMS"] = f"seed={self.seed * 100003 + i * 7919 + attempt * 104729 + 1} max_success={count} max_size={size} max_discard_ratio=50"
             a = self.drive_args(["--mode", "rc", "--out", f"{wd}/stats.json", "--journal", f"{wd}/cur.case", "--failout", f"{wd}/fail.case", "--workdir", wd,
-                                 "--budget", str(t.get("case_budget", 20))])
+                                 "--budget", str(t.get("case_budget", 10))])
             log = open(f"{wd}/log", "w")
             return [i, wd, subprocess.Popen(a, env=env, stdout=log, stderr=subprocess.STDOUT, preexec_fn=os.setsid), attempt, count]
         for i in range(shards): procs.append(launch(i, 0, per))
@@ -193,7 +194,7 @@ class Runner:
                 done = 0
                 try: done = json.load(open(sp))["evaluations"]
                 except Exception: pass
-                keep = os.path.join(VERIF, "evidence", "replays"); os.makedirs(keep, exist_ok=True)
+                keep = os.path.join(EVID, "replays"); os.makedirs(keep, exist_ok=True)
                 data = open(f"{wd}/cur.case", "rb").read() if os.path.exists(f"{wd}/cur.case") else b""
                 kp = os.path.join(keep, f"{self.pid}-slow-{hashlib.sha1(data).hexdigest()[:10]}.case"); open(kp, "wb").write(data)
                 self.notes.append(f"INCONCLUSIVE: shard {i} case exceeded its time budget ({kp}); not a violation")
@@ -207,7 +208,7 @@ class Runner:
                 if not os.path.exists(cur): self.notes.append(f"shard {i} exited {rc} without a journal"); continue
                 data = open(cur, "rb").read()
                 tmp = f"{wd}/cand.case"; open(tmp, "wb").write(data)
-                k, s, out = self.replay(tmp, budget=t.get("case_budget", 20))
+                k, s, out = self.replay(tmp, budget=t.get("case_budget", 10))
                 if k == "pass":
                     self.notes.append(f"shard {i} exited {rc} but the journaled case passes in isolation (tail: {open(f'{wd}/log').read()[-300:]!r})"); continue
                 self.n_min = getattr(self, "n_min", 0) + 1
@@ -240,9 +241,9 @@ class Runner:
             "assumptions": self.cfg.get("assumptions", []),
             "wall_s": round(time.time() - self.t0, 1), "violations": len(self.violations),
         }
-        os.makedirs(os.path.join(VERIF, "evidence"), exist_ok=True)
-        tmp = os.path.join(VERIF, "evidence", f".{self.pid}.json.tmp")
-        json.dump(doc, open(tmp, "w"), indent=1); os.replace(tmp, os.path.join(VERIF, "evidence", f"{self.pid}.json"))
+        os.makedirs(EVID, exist_ok=True)
+        tmp = os.path.join(EVID, f".{self.pid}.json.tmp")
+        json.dump(doc, open(tmp, "w"), indent=1); os.replace(tmp, os.path.join(EVID, f"{self.pid}.json"))
         return doc
 
     def run(self):
